@@ -57,7 +57,7 @@ _CODEC_NOTE = ("Trusted: Lean kernel; the hand-written codec model (Model/VarInt
 PROPS["C01"] = dict(
     level="proof",
     technique="Lean 4 theorems: `Sound enc dec` for every consensus decoder by combinator lemmas + case analysis of the Transaction/RingCT dispatch (decoder and encoder are separately modelled); differential correspondence on structured + malformed byte strings",
-    level_text="C01_sound_* prove for every byte string b, every version, all seven RingCT types and every count that `dec b = some (x, rest)` implies `b = enc x ++ rest`, for VarInt, fixed-width records, capped vectors, TxIn, TxOut targets, prefix, ecdh, Bulletproof(+), MLSAG/CLSAG, RctSigBase(i,o), RctSigPrunable(type,i,o,m), Transaction, BlockHeader and Block; injectivity (C01_injective_tx/block/header/prefix/…) is a corollary; C01_txid_commits proves that equal transaction identifiers of two strictly parsed transactions (same version class) mean equal received bytes or a collision of the hash; C01_model_tags_are_source ties the model's tag / type literals to the tag tables regenerated from the source. The model's decoders/encoders mirror the Rust ones and agree with them on ~68k (quick) structured, mutated, truncated, tag-swept, count-perturbed (±1 with bytes appended) and strictly parsed inputs; the real code is additionally checked directly (serialize(parse b) == b[..n]).",
+    level_text="C01_sound_* prove for every byte string b, every version, all seven RingCT types and every count that `dec b = some (x, rest)` implies `b = enc x ++ rest`, for VarInt, fixed-width records, capped vectors, TxIn, TxOut targets, prefix, ecdh, Bulletproof(+), MLSAG/CLSAG, RctSigBase(i,o), RctSigPrunable(type,i,o,m), Transaction, BlockHeader and Block; injectivity (C01_injective_tx/block/header/prefix/…) is a corollary; C01_txid_commits proves that equal transaction identifiers of two strictly parsed transactions (same version class) mean equal received bytes, or that two DIFFERENT strings among the explicitly listed strings hashed for the two identifiers (`hashed H t1`, `hashed H t2`: serialisation / prefix, base, prunable part, digest string) have the same hash (C01_txid_injective: the same as injectivity of H on those strings; C01_txid_commits_any_version: the one further case without the version hypothesis); C01_blockid_commits is the same for Block::id (explicit list `hashedBlock H x`: the miner transaction's strings, the node pairs of the transaction tree — C01_tree_hash_injective —, the final pre-image; third disjunct: the block-202612 substitution, which identifies two raw hashes by design); C01_model_tags_are_source ties the model's tag literals to the tag tables regenerated from the source, C01_model_branches_are_source runs the model's type-dependent decoders and encoders on a probe per RingCT type and compares what they read / wrote with the regenerated `match rct_type` / `==` / is_rct_bp / is_rct_bp_plus tables, C01_sound_rcttype_tables proves Sound for the RctType codec read off the two regenerated tables. The model's decoders/encoders mirror the Rust ones and agree with them on ~73k (quick) structured, mutated, truncated, tag-swept, count-perturbed (±1 with bytes appended) and strictly parsed inputs; the real code is additionally checked directly (serialize(parse b) == b[..n]).",
     level_note=_CODEC_NOTE,
     design_ref="DESIGN.md §6 C01",
     rule="40% valid encodings from the type-directed generator, 60% malformed stream (9 mutation kinds, 256-value sweeps at leading byte positions and at every input tag / target tag / RingCT type byte, every count byte and every byte of small records moved by ±1 with 100 random bytes appended, unusual versions, truncation at every position, declared lengths around the cap).",
@@ -68,7 +68,7 @@ PROPS["C01"] = dict(
 PROPS["C02"] = dict(
     level="proof",
     technique="Lean 4 theorems: `Complete wf enc dec` on explicit decidable well-formedness predicates, separately modelled length accounting proved equal to bytes written, strictness lemmas; round-trip / length / strictness oracles on generated values",
-    level_text="C02_complete_* prove `dec (enc x ++ r) = some (x, r)` for every well-formed x (wfTx/wfBlock: implicit vectors have the implied lengths, numbers are u64, keys 32 bytes, explicit vectors within the cap, one-byte BulletproofPlus count < 256) and every continuation r; C02_len_* prove that the byte count each encoder reports (a separately written fold mirroring `len += ...`) equals the bytes written for every value; C02_strict / C02_strict_iff_partial / C02_partial_count give the strict/partial clauses; C02_decoded_wf_* / C02_wf_iff_roundtrip_* prove that the well-formedness predicates are exactly 'is the parse of some byte string' (the hypotheses are the weakest possible), C02_wf_inhabited that they are satisfiable on every dispatch path; C02_complete_uint / _int / _bytes / _bool / _rcttype cover the primitives. The real code is checked on generated values of all shapes (round trip, reported length, strict rejection of suffixes) and against the model.",
+    level_text="C02_complete_* prove `dec (enc x ++ r) = some (x, r)` for every well-formed x (wfTx/wfBlock: implicit vectors have the implied lengths, numbers are u64, keys 32 bytes, explicit vectors within the cap, one-byte BulletproofPlus count < 256) and every continuation r; C02_len_* prove that the byte count each encoder reports (a separately written model of the returned usize mirroring `len += ...`: Model/Len.lean) equals the bytes written for every value — transactions, blocks and their components (txin, target, txout, ecdh, Bulletproof(Plus), CLSAG, MLSAG, vectors), strings, fixed-width integers (`lenUint k` = `size_of::<$ty>()`), bool, RctType and every arm of `SubField::consensus_encode` (C02_len_subfield); C02_strict / C02_strict_iff_partial / C02_partial_count give the strict/partial clauses; C02_decoded_wf_* (transaction, block and all twelve component records) prove that every value the model decoder returns is well-formed, so with C02_wf_iff_roundtrip_* / C02_wf_iff_parsed_* the well-formedness predicates are exactly 'is the strict parse of some byte string' = 'survives serialise-then-parse': the hypotheses exclude no value that can round-trip (they do exclude real `Transaction` values that cannot: > 255 BulletproofPlus proofs, vectors above the cap, v1 with RingCT data, v2 without inputs but with a base, empty first ring with type != 0); C02_roundtrip_preimage_unique: the encoding is the only strict preimage. Satisfiability: C02_wf_inhabited (a minimal transaction — no output, no range proof, ring of one — for version 1, each RingCT type 1..6 and type 0 under versions 0 and 3), C02_wf_inhabited_full / C02_wf_inhabited_rct (eleven samples with recorded shapes: every RingCT type 1..6 with non-empty outputs, ecdh, outPk, range proofs of the type's kind and count width, ring signatures; rings of 2; two inputs; tagged-key outputs; type 4 with a coinbase input first; version 2 without inputs; version 1 with rings of 2 and 1), C02_wfBlock_inhabited (a block with a miner transaction and one hash). C02_complete_uint / _int / _bool / _rcttype cover the primitives; C02_complete_bytes is the opaque k-byte read (the model identifies Key/Hash/Signature/Key64/RangeSig values with their bytes), C02_complete_key64 / _signature / _rangesig the same records read field by field. The real code is checked on generated values of all shapes (round trip, reported length, strict rejection of suffixes) and against the model.",
     level_note=_CODEC_NOTE + " Known finding: BulletproofPlus counts > 255 do not round-trip (recorded, DESIGN.md §7 item 4).",
     design_ref="DESIGN.md §6 C02, Appendix B",
     rule="type-directed values: both versions, all 7 RingCT types, rings 1..40 (a few with thousands of members), 0..18 outputs (a few with thousands), long extras, blocks with 0..thousands of hashes; primitives at every varint width boundary; empty rings, mixed inputs, unusual versions, 127..129 inputs, 255..257 proofs, fixed-width integers, boxed slices; vectors of exactly cap/size and cap/size+1 real elements.",
